@@ -371,8 +371,10 @@ fn malformed_corpus() -> Vec<Vec<u8>> {
     docs
 }
 
-fn odd_content() -> Vec<Vec<u8>> {
+pub fn odd_content() -> Vec<Vec<u8>> {
     [
+        // values that begin in ASCII and go on in another script / an emoji, and the other way round
+        "{\"a\":\"Dr. \u{09B0}\u{09B9}\u{09AE}\u{09BE}\u{09A8}\",\"abc\":\"ok \u{2705}\"}", "{\"a\":\"\u{09B0} r\",\"smile\":\"x\u{1F600}y\"}", "{\"ab\":\"a\u{00E9}b\",\"a\":\"1\u{09E7}\"}",
         "{\"\":\"\"}", "{\"a\":\"\"}", "{\"on\":\"\",\"onno\":\"\"}", "{\"ab\":\"\",\"abc\":\"kkk\"}", "{\":\":\"\"}", "{\"a\":\"...\"}", "{\"a\":\"!?\",\"ami\":\"()\"}",
         "{\"hothat\":\"\u{09B9}\u{09A0}\u{09BE}\u{09CE}\",\"ebong\":\"\u{098F}\u{09AC}\u{0982}\"}", "{\"a\":\"hello\",\"smile\":\"SMILE\"}", "{\"a\":\"\u{1F600}\"}", "{\"a\":\"\u{09CE}\"}", "{\"a\":\"\u{0982}\"}",
         "{\"a b\":\"c\"}", "{\"A\":\"\u{0986}\"}", "{\"a\":\" \"}", "{\"smile\":\"\u{200D}\"}", "{\"abe\":\"\",\"ab\":\"\"}",
